@@ -23,6 +23,11 @@ import PyodaProofs.GenAgreeC13Z
 #print axioms Pyoda.GenAgree.C13.gen_Cache_count_eq
 #print axioms Pyoda.GenAgree.C13.gen_Cache_clear_eq
 #print axioms Pyoda.GenAgree.C13.gen_Cache_getOrAdd_eq
+#print axioms Pyoda.GenAgree.C13.gen_Cache_getOrAdd_atomic
+#print axioms Pyoda.GenAgree.C13.gen_Cache_count_atomic
+#print axioms Pyoda.GenAgree.C13.gen_Cache_clear_atomic
+#print axioms Pyoda.GenAgree.C13.gen_Cache_getOrAdd_callbacks
+#print axioms Pyoda.GenAgree.C13.cache_ops_atomic_in_source
 #print axioms Pyoda.GenAgree.C13Z.gen_Node_interval_eq
 #print axioms Pyoda.GenAgree.C13Z.gen_Node_period_eq
 #print axioms Pyoda.GenAgree.C13Z.gen_Node_createNode_loop1_eq
@@ -31,3 +36,5 @@ import PyodaProofs.GenAgreeC13Z
 #print axioms Pyoda.GenAgree.C13Z.gen_Cache_getZoneInterval_loop2_eq
 #print axioms Pyoda.GenAgree.C13Z.gen_Cache_getZoneInterval_loop3_eq
 #print axioms Pyoda.GenAgree.C13Z.gen_Cache_getZoneInterval_eq
+#print axioms Pyoda.GenAgree.C13Z.gen_Cache_getZoneInterval_gil_ops
+#print axioms Pyoda.GenAgree.C13Z.gen_Node_accessors_frozen
